@@ -190,6 +190,7 @@ class Explorer:
                 self.bound_hit = True
                 break
             prefix, forced, sf_used = stack.pop()
+            real.main_thread_gc()
             self.prefix, self.trace, self.pc, self.free, self.generic, self.kinds = prefix, [], [], [], [], []
             self.off_path = False
             self._decided = {}
